@@ -61,10 +61,11 @@ var c08loggers []*slog.Entry
 var c08loggerName = regexp.MustCompile(`"logger":"[^"]*"`)
 
 type c08world struct {
-	rec    *lockedRec
-	shared []slog.Attr // shared group attributes whose member order is snapshotted
-	calls  [][]func()  // per thread, the calls
-	snap   func() string
+	rec     *lockedRec
+	shared  []slog.Attr // shared group attributes whose member order is snapshotted
+	calls   [][]func()  // per thread, the calls
+	noDense bool        // not explored in the build with a scheduling point before every statement (too many points)
+	snap    func() string
 }
 
 type c08scenario struct {
@@ -297,13 +298,23 @@ func c08scenarios() []c08scenario {
 		{"S10 records longer than 1 KB next to short ones", 0, func(th, cp int) *c08world {
 			w := &c08world{rec: &lockedRec{}}
 			ls := []*slog.Entry{c08logger("s10j", "json", w.rec), c08logger("s10l", "logfmt", w.rec)}
-			long := strings.Repeat("0123456789abcdef", 90) // 1440 bytes
+			long := strings.Repeat("0123456789abcdef", 90)   // 1440 bytes
+			huge := strings.Repeat("0123456789abcdef", 4200) // 67 KB: still one Write per destination
+			if strings.Contains(os.Getenv("VERIF_BIN"), "dense") || th*cp > 2 {
+				// with a scheduling point before every statement a 67 KB value exceeds the step horizon; and the
+				// larger shapes have too many executions to format 67 KB in each
+				huge = long
+			}
 			for t := 0; t < th; t++ {
 				var cs []func()
 				for i := 0; i < cp; i++ {
 					t, i := t, i
 					l := ls[t%2]
-					if (t+i)%2 == 0 {
+					if t == 1 && i == 0 && len(huge) > len(long) {
+						cs = append(cs, func() {
+							l.Info(fmt.Sprintf("s10 thread %d call %d", t, i), ya("a", t), ya("huge", huge), ya("c", i))
+						})
+					} else if (t+i)%2 == 0 {
 						cs = append(cs, func() {
 							l.Info(fmt.Sprintf("s10 thread %d call %d", t, i), ya("a", t), ya("big", long), ya("c", i), ya("tail", long[:700]))
 						})
@@ -409,6 +420,24 @@ func c08scenarios() []c08scenario {
 					l := ls[t%2]
 					cs = append(cs, func() {
 						l.Info(fmt.Sprintf("s15 thread %d call %d", t, i), shared[0], "own", t, shared[1], shared[2], shared[3])
+					})
+				}
+				w.calls = append(w.calls, cs)
+			}
+			return w
+		}},
+		{"S16 calls that repeat the keys of the logger's own attributes with plain key, value pairs", 0, func(th, cp int) *c08world {
+			w := &c08world{rec: &lockedRec{}, noDense: true}
+			ls := []*slog.Entry{c08logger("s16j", "json", w.rec), c08logger("s16l", "logfmt", w.rec)}
+			ls[0].SetAttrs(slog.String("id", "logger-level"), slog.Int("n", 0))
+			ls[1].Set("id", "logger-level", "who", "logger")
+			for t := 0; t < th; t++ {
+				var cs []func()
+				for i := 0; i < cp; i++ {
+					t, i := t, i
+					l := ls[t%2]
+					cs = append(cs, func() {
+						l.Info(fmt.Sprintf("s16 thread %d call %d", t, i), "own", t, "id", fmt.Sprintf("call-%d-%d", t, i), ya("slow", i))
 					})
 				}
 				w.calls = append(w.calls, cs)
@@ -659,6 +688,12 @@ func c08run(c *Ctx) {
 			if th*cp >= 4 && b > 2 && !dense {
 				b = 2 // 2x2 at bound 3 is beyond the budget; reported
 			}
+			if dense {
+				c08prepare()
+				if probe := sc.build(th, cp); probe.noDense {
+					continue
+				}
+			}
 			expected, problem := c08expected(sc, th, cp)
 			if c.Shard == 0 {
 				c.Count("evaluations", 1)
@@ -726,6 +761,7 @@ func c08run(c *Ctx) {
 				c.Note(fmt.Sprintf("%s %dx%d: execution cap reached", sc.name, th, cp))
 			}
 			c.Count("states", int64(ex.Executions))
+			c.Count(fmt.Sprintf("executions_%s_%dx%d", strings.Fields(sc.name)[0], th, cp), int64(ex.Executions))
 			if c.Shard == 0 {
 				c.Sample(map[string]any{"scenario": sc.name, "threads": th, "calls_per_thread": cp, "preemption_bound": b, "dense_points": dense})
 			}
